@@ -41,7 +41,7 @@ class TProg:
 
 
 def _rs_opt_str(c):
-    return "None" if c is None else "Some(%s)" % json.dumps(c)
+    return "None" if c is None else "Some(%s)" % json.dumps(c, ensure_ascii=False)
 
 
 def render(sets):
